@@ -683,7 +683,7 @@ def gen_cases(ctx):
         return fs
 
     for form in USER_FORMS:
-        for _ in range(ctx.scale(16, 300)):
+        for _ in range(ctx.scale(16, 150)):
             pi = rng.randrange(len(pls))
             fs = transient_script(pls[pi], rng.randint(1, 9))
             if rng.random() < 0.3:
@@ -730,9 +730,9 @@ def gen_cases(ctx):
                 cases.append(dict(kind='rdb', cfg=list(form), fs=[list(s1)], how=how))
         cases.append(dict(kind='rdb', cfg=list(form), fs=[], how=rng.choice(RDB_ENTRIES)))
         for fs in itertools.product(rsyms, repeat=2):
-            if thorough or rng.random() < 0.15:
+            if rng.random() < (0.6 if thorough else 0.15):
                 cases.append(dict(kind='rdb', cfg=list(form), fs=[list(x) for x in fs], how=rng.choice(RDB_ENTRIES)))
-        for _ in range(ctx.scale(14, 250)):
+        for _ in range(ctx.scale(14, 120)):
             fs = transient_script(None, rng.randint(2, 9), cut=cuts)
             if rng.random() < 0.25:
                 fs.append([0, rng.choice((404, 403, 401, 400))])
